@@ -164,6 +164,11 @@ def fine_labels(tr):
             out.append("unl %s" % t[1])
         elif t[0] == "release" and t[1] in holder:
             out += ["dec %s" % t[1], "test %s" % t[1], "put %s" % t[1]]
+        elif t[0] in ("facq", "funl"):
+            out.append(lab)
+        elif t[0] == "finFail":
+            # the label is emitted when failure_lock is released: count, first error and stop happened since `facq`
+            out += ["fcount %s" % t[1], "ffirst %s" % t[1], "fstop %s" % t[1]]
         else:
             out.append("b " + lab)
     return out
@@ -181,9 +186,10 @@ def fine_interleaved(tr):
                 n += 1
             dirty.discard(t[1])
             open_.pop(t[1], None)
-        elif t[0] == "b":
+        elif t[0] in ("b", "facq", "funl", "fcount", "ffirst", "fstop"):
+            who = t[2] if t[0] == "b" and len(t) >= 3 else (t[1] if t[0] != "b" else None)
             for w in open_:
-                if len(t) < 3 or t[2] != w:
+                if who != w:
                     dirty.add(w)
     return n
 
@@ -368,6 +374,7 @@ def explore_engine(ctx, props, n_prim, n_op, n_intr=0, p_template=0.15, op_switc
                     d = validate_fine(ctx.driver, tr)
                     stats["fine_traces_validated"] = stats.get("fine_traces_validated", 0) + 1
                     stats["fine_lock_blocks"] = stats.get("fine_lock_blocks", 0) + sum(1 for x in tr.fine if x.startswith("acq "))
+                    stats["fine_failure_blocks"] = stats.get("fine_failure_blocks", 0) + sum(1 for x in tr.fine if x.startswith("facq "))
                     stats["fine_blocks_interleaved"] = stats.get("fine_blocks_interleaved", 0) + fine_interleaved(tr)
                 if d:
                     d["case"] = case
